@@ -172,8 +172,56 @@ func genC12(p *Pkg) (map[string]string, error) {
 		})
 		methods = append(methods, "("+LeanString(strings.TrimPrefix(m, "numberproto_"))+", "+c12list(conds)+", "+c12list(calls)+")")
 	}
+	// FToBaseStr (toString(radix)): every condition in source order, the statements that compute s2 / mlo / mhi, and
+	// the constants they use — the skeleton that lean/GojaModel/C12/Radix.lean transcribes.
+	fb, err := parser.ParseFile(fset, filepath.Join(p.Dir, "ftoa", "ftobasestr.go"), nil, 0)
+	if err != nil {
+		return nil, err
+	}
+	var fbs *ast.FuncDecl
+	for _, d := range fb.Decls {
+		if fd, ok := d.(*ast.FuncDecl); ok && fd.Name.Name == "FToBaseStr" && fd.Recv == nil {
+			fbs = fd
+		}
+	}
+	if fbs == nil {
+		return nil, fmt.Errorf("ftoa.FToBaseStr not found")
+	}
+	var radixConds, radixInit []string
+	c12conds(fset, fbs.Body, &radixConds)
+	ast.Inspect(fbs.Body, func(n ast.Node) bool {
+		if as, ok := n.(*ast.AssignStmt); ok && len(as.Lhs) == 1 {
+			if id, ok := as.Lhs[0].(*ast.Ident); ok && (id.Name == "s2" || id.Name == "mlo" || id.Name == "mhi") {
+				radixInit = append(radixInit, c12src(fset, as))
+			}
+		}
+		return true
+	})
+	fc, err := parser.ParseFile(fset, filepath.Join(p.Dir, "ftoa", "common.go"), nil, 0)
+	if err != nil {
+		return nil, err
+	}
+	var radixConsts []string
+	for _, d := range fc.Decls {
+		gd, ok := d.(*ast.GenDecl)
+		if !ok || gd.Tok != token.CONST {
+			continue
+		}
+		for _, sp := range gd.Specs {
+			vs := sp.(*ast.ValueSpec)
+			for i, nm := range vs.Names {
+				if (nm.Name == "bias" || nm.Name == "p" || nm.Name == "log2P") && i < len(vs.Values) {
+					radixConsts = append(radixConsts, nm.Name+"="+c12src(fset, vs.Values[i]))
+				}
+			}
+		}
+	}
+	if len(radixConsts) != 3 {
+		return nil, fmt.Errorf("constants bias, p, log2P not found (%v)", radixConsts)
+	}
+
 	var b strings.Builder
-	b.WriteString("-- GENERATED by extract/c12.go from ftoa/ftostr.go and builtin_number.go — do not edit.\n")
+	b.WriteString("-- GENERATED by extract/c12.go from ftoa/ftostr.go, ftoa/ftobasestr.go, ftoa/common.go and builtin_number.go — do not edit.\n")
 	b.WriteString("namespace GojaModel.Generated.C12\n\n")
 	b.WriteString("/-- FToStr: ModeFixed falls back to ModeStandard for large magnitudes (condition, action). -/\n")
 	b.WriteString("def fixedGuard : List String := " + c12list(fixedGuard) + "\n\n")
@@ -183,6 +231,12 @@ func genC12(p *Pkg) (map[string]string, error) {
 	b.WriteString("def tailConds : List String := " + c12list(tail) + "\n\n")
 	b.WriteString("/-- builtin_number.go: (method, argument range checks, conversions called). -/\n")
 	b.WriteString("def frontEnds : List (String × List String × List String) :=\n  [" + strings.Join(methods, ",\n   ") + "]\n\n")
+	b.WriteString("/-- FToBaseStr: every condition, in source order. -/\n")
+	b.WriteString("def radixConds : List String :=\n  " + c12list(radixConds) + "\n\n")
+	b.WriteString("/-- FToBaseStr: the statements that set s2, mlo, mhi, in source order. -/\n")
+	b.WriteString("def radixInit : List String :=\n  " + c12list(radixInit) + "\n\n")
+	b.WriteString("/-- ftoa/common.go constants used there. -/\n")
+	b.WriteString("def radixConsts : List String := " + c12list(radixConsts) + "\n\n")
 	b.WriteString("end GojaModel.Generated.C12\n")
 	return map[string]string{"C12_Layout.lean": b.String()}, nil
 }
